@@ -376,6 +376,88 @@ Proof.
 Qed.
 Print Assumptions C01_render_then_compile.
 Print Assumptions C07_parse_total.
+
+(* =================== rendering functions: every tree has a minimal and a fully parenthesised rendering =================== *)
+Section EInd.
+  Variable P : expr -> Prop.
+  Hypothesis Hun : forall o r, P r -> P (EUn o r).
+  Hypothesis Hbin : forall o l r, P l -> P r -> P (EBin o l r).
+  Hypothesis Harr : forall es, Forall P es -> P (EArr es).
+  Hypothesis Hlit : forall v, P (ELit v).
+  Hypothesis Hvar : forall n, P (EVar n).
+  Hypothesis Hcall : forall n ps, Forall P ps -> P (ECall n ps).
+  Fixpoint pexpr_ind' (e:expr) : P e :=
+    match e with
+    | EUn o r => Hun o r (pexpr_ind' r)
+    | EBin o l r => Hbin o l r (pexpr_ind' l) (pexpr_ind' r)
+    | EArr es => Harr es ((fix go (l:list expr) : Forall P l := match l with [] => Forall_nil _ | x::t => Forall_cons x (pexpr_ind' x) (go t) end) es)
+    | ELit v => Hlit v | EVar n => Hvar n
+    | ECall n ps => Hcall n ps ((fix go (l:list expr) : Forall P l := match l with [] => Forall_nil _ | x::t => Forall_cons x (pexpr_ind' x) (go t) end) ps)
+    end.
+End EInd.
+Definition eprec (e:expr) : prec := match e with EBin b _ _ => bprec b | EUn _ _ => PUnary | _ => PPrimary end.
+Definition paren_if (b:bool) (ts:list token) : list token := if b then LParen :: ts ++ [RParen] else ts.
+Fixpoint commas (tss:list (list token)) : list token :=
+  match tss with [] => [] | [x] => x | x :: rest => x ++ Comma :: commas rest end.
+(* only the parentheses the documented precedence order and left-associativity require *)
+Fixpoint render_min (e:expr) : list token :=
+  match e with
+  | ELit n => [TLit n] | EVar n => [TId n]
+  | EUn o r => untok o :: paren_if (negb (ple PUnary (eprec r))) (render_min r)
+  | EBin b l r => paren_if (negb (ple (bprec b) (eprec l))) (render_min l) ++ TBin b :: paren_if (negb (ple (pnext (bprec b)) (eprec r))) (render_min r)
+  | EArr es => LBracket :: commas (map render_min es) ++ [RBracket]
+  | ECall f es => TId f :: LParen :: commas (map render_min es) ++ [RParen]
+  end.
+(* every operator application parenthesised *)
+Fixpoint render_full (e:expr) : list token :=
+  match e with
+  | ELit n => [TLit n] | EVar n => [TId n]
+  | EUn o r => LParen :: (untok o :: render_full r) ++ [RParen]
+  | EBin b l r => LParen :: (render_full l ++ TBin b :: render_full r) ++ [RParen]
+  | EArr es => LBracket :: commas (map render_full es) ++ [RBracket]
+  | ECall f es => TId f :: LParen :: commas (map render_full es) ++ [RParen]
+  end.
+Lemma paren_renders t e ts q : Renders t e ts -> exists t', Renders t' e (paren_if (negb (ple q t)) ts) /\ ple q t' = true.
+Proof.
+  intros R. unfold paren_if. destruct (ple q t) eqn:E; cbn [negb].
+  - exists t. auto.
+  - exists PPrimary. split. apply R_paren with t. exact R. destruct q; reflexivity.
+Qed.
+Lemma renders_list (f:expr -> list token) es : Forall (fun e => exists t, Renders t e (f e)) es -> RendersList es (commas (map f es)).
+Proof.
+  induction 1 as [|x t [tx Hx] Ht IH]; cbn [map commas]. constructor.
+  destruct t as [|y t']. cbn [map]. eapply RL_one; eauto.
+  cbn [map] in *. eapply RL_cons; eauto.
+Qed.
+Theorem render_min_renders : forall e, Renders (eprec e) e (render_min e).
+Proof.
+  induction e using pexpr_ind'; cbn [render_min eprec].
+  - destruct (paren_renders _ _ _ PUnary IHe) as (t' & R & L). eapply R_un; eauto.
+  - destruct (paren_renders _ _ _ (bprec o) IHe1) as (tl & Rl & Ll). destruct (paren_renders _ _ _ (pnext (bprec o)) IHe2) as (tr & Rr & Lr). eapply R_bin; eauto.
+  - apply R_arr. apply renders_list. eapply Forall_impl; [|exact H]. intros a Ha. eexists; exact Ha.
+  - constructor.
+  - constructor.
+  - apply R_call. apply renders_list. eapply Forall_impl; [|exact H]. intros a Ha. eexists; exact Ha.
+Qed.
+Theorem render_full_renders : forall e, Renders PPrimary e (render_full e).
+Proof.
+  induction e using pexpr_ind'; cbn [render_full].
+  - apply R_paren with PUnary. apply R_un with PPrimary; [reflexivity|exact IHe].
+  - apply R_paren with (bprec o). apply R_bin with PPrimary PPrimary; auto; destruct o; reflexivity.
+  - apply R_arr. apply renders_list. eapply Forall_impl; [|exact H]. intros a Ha. eexists; exact Ha.
+  - constructor.
+  - constructor.
+  - apply R_call. apply renders_list. eapply Forall_impl; [|exact H]. intros a Ha. eexists; exact Ha.
+Qed.
+(* both directions of C01 at the token level: every tree, rendered either way, compiles back to itself; hence whenever compile
+   accepts a token list, re-rendering its tree and compiling again reproduces the same tree *)
+Theorem C01_render_functions_roundtrip : forall e, compile (render_min e) = Ok e /\ compile (render_full e) = Ok e.
+Proof.
+  intros e. split. eapply C01_render_then_compile. apply render_min_renders.
+  eapply C01_render_then_compile. apply render_full_renders.
+Qed.
+Corollary C01_reparse : forall ts e, compile ts = Ok e -> compile (render_min e) = Ok e /\ compile (render_full e) = Ok e.
+Proof. intros ts e _. apply C01_render_functions_roundtrip. Qed.
 End Pratt.
 Arguments LParen {LitT IdT}. Arguments RParen {LitT IdT}. Arguments LBracket {LitT IdT}. Arguments RBracket {LitT IdT}. Arguments Comma {LitT IdT}.
 Arguments TBin {LitT IdT}. Arguments TNot {LitT IdT}. Arguments TLit {LitT IdT}. Arguments TId {LitT IdT}.
